@@ -259,6 +259,8 @@ class Witness(threading.Thread):
             while not self.stop.is_set():
                 n += 1
                 tok = "w%d-%d" % (self.wid, n)
+                if n % 9 == 4:
+                    tok += "-" + "L" * 150000         # now and then a well-behaved client's request and reply are large (well within MAX_MESSAGE_SIZE)
                 t_send = time.monotonic()
                 want_exc = n % 5 == 0
                 try:
@@ -298,7 +300,7 @@ class Witness(threading.Thread):
                     raise
                 last_reply = time.monotonic()
                 if got != tok:
-                    self.problems.append("witness %d %s %r, got %r" % (self.wid, "expected its call to raise KeyError" if want_exc else "sent", tok, got))
+                    self.problems.append("witness %d %s %s, got %s" % (self.wid, "expected its call to raise KeyError" if want_exc else "sent", core.short(tok, 60), core.short(got, 200)))
                     break
                 if p._pyroConnection is not conn:
                     self.problems.append("witness %d: connection was replaced" % self.wid)
